@@ -1054,7 +1054,7 @@ def run(ctx):
     ctx.assumptions += [
         "well-formed packet = 188 octets, sync 0x47, transport_error_indicator 0, not scrambled, adaptation_field_control 01/10/11 with adaptation_field_length 0..182 (with payload) or 183 (without), PCR only when the field has room; everything else is 'corrupt' and only memory safety and 'output octets come from the input' are required, until the decapsulator has delivered a payload again",
         "a duplicate is the packet immediately following its original with the same counter and identical payload; a third copy, and a packet with the same counter but another payload (exactly 16 packets missing: no gap is visible in the counters) may be delivered or dropped",
-        "access units carry a PTS, or a PTS and a DTS <= PTS, or no time stamp; the round trip is stated as dts_orig = 300*((dts div 300) mod 2^33) and dts_pts_delay = 300*((pts' - dts') mod 2^33) when that is <= 60 s (pts' = (pts div 300) mod 2^33); ts_encaps is driven with data-aligned PES (uref_ts_flow pes_alignment), pes_min_duration 0, following the UPROBE_TS_ENCAPS_STATUS dates as upipe_ts_mux does",
+        "access units carry a PTS, or a PTS and a DTS <= PTS, or no time stamp; the round trip is stated as dts_orig = 300*((dts div 300) mod 2^33) and dts_pts_delay = 300*((pts' - dts') mod 2^33) when that is <= 60 s (pts' = (pts div 300) mod 2^33); ts_encaps is driven with data-aligned PES (uref_ts_flow pes_alignment) and also without it (the tail of an access unit then travels with the next PES; judged on the stream), pes_min_duration 0, following the UPROBE_TS_ENCAPS_STATUS dates as upipe_ts_mux does",
         "upipe_ts_mux_command_str / upipe_ts_mux_event_str (debug strings of upipe_ts_mux.c, which is not built) are stubbed",
     ]
     ctx.trusted += ["TLC", "harness/replay_ts.c (command interpreter, reference TS / PES serializer and parser written from ISO/IEC 13818-1)",
